@@ -105,6 +105,7 @@ def c06_generate_processes(sc, simacv, profiles, k, seed, nproc):
         outs = []
         for j in range(k):
             env = {} if j == 0 else {"SIM_MAPSEED": str(vlib.splitmix(seed * 1000003 + pi * 131 + j))}
+            env["GOMAXPROCS"] = "4"
             rc, so, se, _ = run_simacv(sc, simacv, ["generate", "profile.yaml"], img, env)
             outs.append((rc, so, env.get("SIM_MAPSEED")))
         return pi, outs
@@ -136,14 +137,15 @@ def check_c06(tier, seed):
     nviol = vlib.report_violations_a("C06", sc, harness, agg)
 
     # fresh-process code generation
-    profs = [p for p in sc.corpus_index if p["class"] != "production" or tier == "thorough"]
+    profs = list(sc.corpus_index)
     rnd = random.Random(seed)
     if tier == "quick":
         gen = [p for p in profs if p["class"] == "generated"]
-        fix = [p for p in profs if p["class"] != "generated"]
+        fix = [p for p in profs if p["class"] == "fixture"]
+        big = [p for p in profs if p["class"] in ("production", "special")]  # many validations per profile
         rnd.shuffle(gen)
         rnd.shuffle(fix)
-        profs = gen[:14] + fix[:14]
+        profs = gen[:12] + fix[:12] + big
     k = 6 if tier == "quick" else 16
     g = c06_generate_processes(sc, simacv, profs, k, seed, vlib.NCPU)
     known = vlib.load_known("C06")
@@ -442,6 +444,8 @@ def fault_kind(spec):
 # ------------------------------------------------------------------ C18
 
 def c18_pairs(sc, tier):
+    """(profile path, data path, weight class). Pairs whose outputs contain unusual bytes ('%', quotes,
+    non-ASCII) are listed several times so that most histories include one."""
     pairs = []
     for p in sc.corpus_index:
         if p["class"] == "production" and tier == "quick":
@@ -453,6 +457,8 @@ def c18_pairs(sc, tier):
                 pp = p["path"] if os.path.isabs(p["path"]) else os.path.join(sc.src, p["path"])
                 dp = d["path"] if os.path.isabs(d["path"]) else os.path.join(sc.src, d["path"])
                 pairs.append((pp, dp))
+                if p["class"] == "special" or p["id"] in ("integration/profile29", "integration/profile24", "integration/profile25", "integration/profile26", "integration/profile27"):
+                    pairs += [(pp, dp)] * 12
     return pairs
 
 
